@@ -13,6 +13,9 @@ import (
 // 0: NewList/NewObject with nested containers, 1: Go natives through NewListFrom/NewObjectFrom,
 // 2: element-wise Add/Set.
 func Build(c *CTree, how int) any {
+	if how == 3 {
+		return buildShared(c, map[string]any{})
+	}
 	switch c.Kind {
 	case 's':
 		return c.S
@@ -282,4 +285,33 @@ func Format(x any, n int) string {
 		return v.FormatString(n)
 	}
 	panic("not a container")
+}
+
+// buildShared builds the container as a DAG: equal subtrees are ONE container instance stored in several places
+// (acyclic, but not a tree). The content is the same as that of the tree.
+func buildShared(c *CTree, memo map[string]any) any {
+	switch c.Kind {
+	case 'L', 'O':
+		key := c.String()
+		if x, ok := memo[key]; ok {
+			return x
+		}
+		var out any
+		if c.Kind == 'L' {
+			l := at.NewList()
+			for _, e := range c.Elems {
+				l.Add(buildShared(e, memo))
+			}
+			out = l
+		} else {
+			o := at.NewObject()
+			for i, e := range c.Elems {
+				o.Set(c.Keys[i], buildShared(e, memo))
+			}
+			out = o
+		}
+		memo[key] = out
+		return out
+	}
+	return Build(c, 0)
 }
